@@ -87,6 +87,9 @@ package varmq
 
 // releaseWaiters: when nothing is in flight any more the barrier waiters are woken -- if paused, or if running with nothing pending.
 //@ func worker.releaseWaiters
+// lost wake-up (finding G4b, fixed): the broadcast is sent with the condition variable's mutex (w.mx) held, so a waiter that has evaluated
+// its predicate but is not parked yet cannot miss it
+//@   assert [broadcast-under-lock] before call sync.Cond.Broadcast: $held(w.mx)
 //@   props C06 CORE
 //@   requires w.waiters != nil && RI_Manager($addr(w.queues.Manager))
 //@   requires forall i int :: 0 <= i && i < len(w.queues.Manager.items) ==> $lenOf(w.queues.Manager.items[i]) >= 0
